@@ -110,6 +110,14 @@ pub trait Check {
     fn max_shrink_iters(&self) -> u32 {
         4000
     }
+    /// Per part: parts that run the real binary (names starting with `bb-` or `pty`) shrink only a little.
+    fn max_shrink_iters_for(&self, part: &str) -> u32 {
+        if part.starts_with("bb-") || part.starts_with("pty") {
+            self.max_shrink_iters().min(40)
+        } else {
+            self.max_shrink_iters()
+        }
+    }
     fn run_random(&mut self, _part: &str, _case: &Case, _env: &mut Env) -> CaseOut {
         unimplemented!()
     }
@@ -290,7 +298,7 @@ pub fn run_worker(check: &mut dyn Check, tier: Tier, seed: u64, idx: u64, nworke
                     failure_persistence: None,
                     rng_algorithm: RngAlgorithm::ChaCha,
                     rng_seed: RngSeed::Fixed(0),
-                    max_shrink_iters: check.max_shrink_iters(),
+                    max_shrink_iters: check.max_shrink_iters_for(part.name),
                     max_global_rejects: 1,
                     ..Config::default()
                 };
